@@ -158,7 +158,7 @@ pub fn check_a(prop: &str, tier: Tier, selftest: Value) -> i32 {
             bound: it.bound,
             max_wall: per_wall,
             workers: workers_for(it.run.nthreads().max(1)),
-            hang_secs: 15,
+            hang_secs: 30,
         };
         let s: Summary = match explore(&*it.run, &cfg) {
             Ok(s) => s,
